@@ -36,7 +36,9 @@ pub struct Sc { pub mode: Mode, pub pre_datagrams: usize, pub live_datagrams: us
     /// a thread arms and cancels far-future signal timers every 10 ms until the listener has returned
     pub timer_churn: bool,
     /// a datagram every 7 ms from BEFORE the listener call on (the hand-over happens under traffic)
-    pub pre_flood: bool }
+    pub pre_flood: bool,
+    /// the callback of the FIRST network event (and of signal 0) lingers this many ms (longer than any internal wait of the listener)
+    pub long_cb_ms: u64 }
 
 struct Shared {
     in_cb: AtomicBool,
@@ -51,6 +53,8 @@ struct Shared {
     inject: Mutex<Option<(UdpSocket, std::net::SocketAddr)>>,
 }
 
+fn call_is_first_net(sh: &Shared) -> bool { sh.net_order.lock().unwrap().len() == 1 }
+
 fn on_event(sh: &Shared, handler: &NodeHandler<u64>, sc: &Sc, kind: char, payload: u64) {
     // kind 'n' network, 's' signal
     if sh.in_cb.swap(true, Ordering::SeqCst) { sh.overlaps.fetch_add(1, Ordering::SeqCst); }
@@ -60,6 +64,7 @@ fn on_event(sh: &Shared, handler: &NodeHandler<u64>, sc: &Sc, kind: char, payloa
     verif::trace("cb_enter", ((kind as u64) << 32) | (payload & 0xffff_ffff));
     if kind == 'n' { sh.net_order.lock().unwrap().push(payload); } else { sh.sig_order.lock().unwrap().push(payload); }
     if sc.cb_micros > 0 { std::thread::sleep(Duration::from_micros(sc.cb_micros + (payload % 3) * 50)); }
+    if sc.long_cb_ms > 0 && ((kind == 'n' && call_is_first_net(sh)) || (kind == 's' && payload == 0)) { std::thread::sleep(Duration::from_millis(sc.long_cb_ms)); }
     let nets = sh.net_order.lock().unwrap().len();
     let session_msg = kind == 'n' && payload == 600_000 && sc.live_session_stop;
     if session_msg { std::thread::sleep(Duration::from_millis(120)); }
@@ -361,38 +366,41 @@ pub fn run(a: &Args) {
     let mut r = Rng::new(a.seed);
     let mut scs: Vec<Sc> = vec![];
     for mode in [Mode::ForEach, Mode::ForEachAsync, Mode::Enqueue] {
-        scs.push(Sc { mode, pre_datagrams: 4, live_datagrams: 6, signals: 6, stop: StopAt::BeforeStart, cb_micros: 0, inflight: false, pre_session: false, live_session_stop: false, flood: false, timer_churn: false, pre_flood: false });
-        scs.push(Sc { mode, pre_datagrams: 0, live_datagrams: 0, signals: 0, stop: StopAt::BeforeStart, cb_micros: 0, inflight: false, pre_session: false, live_session_stop: false, flood: false, timer_churn: false, pre_flood: false });
+        scs.push(Sc { mode, pre_datagrams: 4, live_datagrams: 6, signals: 6, stop: StopAt::BeforeStart, cb_micros: 0, inflight: false, pre_session: false, live_session_stop: false, flood: false, timer_churn: false, pre_flood: false, long_cb_ms: 0 });
+        scs.push(Sc { mode, pre_datagrams: 0, live_datagrams: 0, signals: 0, stop: StopAt::BeforeStart, cb_micros: 0, inflight: false, pre_session: false, live_session_stop: false, flood: false, timer_churn: false, pre_flood: false, long_cb_ms: 0 });
         let max_idx = if a.thorough { 12 } else { 5 };
         for k in 0..max_idx {
-            scs.push(Sc { mode, pre_datagrams: 5, live_datagrams: 8, signals: 6, stop: StopAt::NetEvent(k), cb_micros: 200, inflight: false, pre_session: false, live_session_stop: false, flood: false, timer_churn: false, pre_flood: false });
-            scs.push(Sc { mode, pre_datagrams: 3, live_datagrams: 10, signals: 8, stop: StopAt::Signal(k), cb_micros: 300, inflight: false, pre_session: false, live_session_stop: false, flood: false, timer_churn: false, pre_flood: false });
+            scs.push(Sc { mode, pre_datagrams: 5, live_datagrams: 8, signals: 6, stop: StopAt::NetEvent(k), cb_micros: 200, inflight: false, pre_session: false, live_session_stop: false, flood: false, timer_churn: false, pre_flood: false, long_cb_ms: 0 });
+            scs.push(Sc { mode, pre_datagrams: 3, live_datagrams: 10, signals: 8, stop: StopAt::Signal(k), cb_micros: 300, inflight: false, pre_session: false, live_session_stop: false, flood: false, timer_churn: false, pre_flood: false, long_cb_ms: 0 });
         }
         for k in 0..(if a.thorough { 6 } else { 2 }) {
-            scs.push(Sc { mode, pre_datagrams: 2, live_datagrams: 6, signals: 6, stop: StopAt::Signal(2 + k), cb_micros: 100, inflight: true, pre_session: false, live_session_stop: false, flood: false, timer_churn: false, pre_flood: false });
-            scs.push(Sc { mode, pre_datagrams: 2, live_datagrams: 8, signals: 4, stop: StopAt::NetEvent(3 + k), cb_micros: 100, inflight: true, pre_session: false, live_session_stop: false, flood: false, timer_churn: false, pre_flood: false });
+            scs.push(Sc { mode, pre_datagrams: 2, live_datagrams: 6, signals: 6, stop: StopAt::Signal(2 + k), cb_micros: 100, inflight: true, pre_session: false, live_session_stop: false, flood: false, timer_churn: false, pre_flood: false, long_cb_ms: 0 });
+            scs.push(Sc { mode, pre_datagrams: 2, live_datagrams: 8, signals: 4, stop: StopAt::NetEvent(3 + k), cb_micros: 100, inflight: true, pre_session: false, live_session_stop: false, flood: false, timer_churn: false, pre_flood: false, long_cb_ms: 0 });
         }
-        scs.push(Sc { mode, pre_datagrams: 3, live_datagrams: 5, signals: 4, stop: StopAt::External(150), cb_micros: 0, inflight: false, pre_session: true, live_session_stop: false, flood: false, timer_churn: false, pre_flood: false });
-        scs.push(Sc { mode, pre_datagrams: 0, live_datagrams: 4, signals: 0, stop: StopAt::NetEvent(8), cb_micros: 100, inflight: false, pre_session: true, live_session_stop: false, flood: false, timer_churn: false, pre_flood: false });
-        scs.push(Sc { mode, pre_datagrams: 0, live_datagrams: 3, signals: 2, stop: StopAt::NetEvent(99), cb_micros: 0, inflight: false, pre_session: false, live_session_stop: true, flood: false, timer_churn: false, pre_flood: false });
-        scs.push(Sc { mode, pre_datagrams: 2, live_datagrams: 5, signals: 3, stop: StopAt::External(120), cb_micros: 100, inflight: false, pre_session: false, live_session_stop: false, flood: true, timer_churn: false, pre_flood: false });
-        scs.push(Sc { mode, pre_datagrams: 2, live_datagrams: 5, signals: 3, stop: StopAt::NetEvent(4), cb_micros: 100, inflight: false, pre_session: false, live_session_stop: false, flood: false, timer_churn: true, pre_flood: false });
-        scs.push(Sc { mode, pre_datagrams: 0, live_datagrams: 4, signals: 3, stop: StopAt::Signal(1), cb_micros: 0, inflight: false, pre_session: false, live_session_stop: false, flood: true, timer_churn: true, pre_flood: false });
+        scs.push(Sc { mode, pre_datagrams: 3, live_datagrams: 5, signals: 4, stop: StopAt::External(150), cb_micros: 0, inflight: false, pre_session: true, live_session_stop: false, flood: false, timer_churn: false, pre_flood: false, long_cb_ms: 0 });
+        scs.push(Sc { mode, pre_datagrams: 0, live_datagrams: 4, signals: 0, stop: StopAt::NetEvent(8), cb_micros: 100, inflight: false, pre_session: true, live_session_stop: false, flood: false, timer_churn: false, pre_flood: false, long_cb_ms: 0 });
+        scs.push(Sc { mode, pre_datagrams: 0, live_datagrams: 3, signals: 2, stop: StopAt::NetEvent(99), cb_micros: 0, inflight: false, pre_session: false, live_session_stop: true, flood: false, timer_churn: false, pre_flood: false, long_cb_ms: 0 });
+        scs.push(Sc { mode, pre_datagrams: 2, live_datagrams: 5, signals: 3, stop: StopAt::External(120), cb_micros: 100, inflight: false, pre_session: false, live_session_stop: false, flood: true, timer_churn: false, pre_flood: false, long_cb_ms: 0 });
+        scs.push(Sc { mode, pre_datagrams: 2, live_datagrams: 5, signals: 3, stop: StopAt::NetEvent(4), cb_micros: 100, inflight: false, pre_session: false, live_session_stop: false, flood: false, timer_churn: true, pre_flood: false, long_cb_ms: 0 });
+        scs.push(Sc { mode, pre_datagrams: 0, live_datagrams: 4, signals: 3, stop: StopAt::Signal(1), cb_micros: 0, inflight: false, pre_session: false, live_session_stop: false, flood: true, timer_churn: true, pre_flood: false, long_cb_ms: 0 });
         // a long live burst handled by a slow callback (hundreds of events out of single polls) while signals fire
-        scs.push(Sc { mode, pre_datagrams: 0, live_datagrams: 260, signals: 24, stop: StopAt::NetEvent(259), cb_micros: 250, inflight: false, pre_session: false, live_session_stop: false, flood: false, timer_churn: false, pre_flood: false });
-        scs.push(Sc { mode, pre_datagrams: 3, live_datagrams: 4, signals: 2, stop: StopAt::External(400), cb_micros: 0, inflight: false, pre_session: false, live_session_stop: false, flood: false, timer_churn: false, pre_flood: true });
+        scs.push(Sc { mode, pre_datagrams: 0, live_datagrams: 260, signals: 24, stop: StopAt::NetEvent(259), cb_micros: 250, inflight: false, pre_session: false, live_session_stop: false, flood: false, timer_churn: false, pre_flood: false, long_cb_ms: 0 });
+        scs.push(Sc { mode, pre_datagrams: 3, live_datagrams: 4, signals: 2, stop: StopAt::External(400), cb_micros: 0, inflight: false, pre_session: false, live_session_stop: false, flood: false, timer_churn: false, pre_flood: true, long_cb_ms: 0 });
         // more cached events than any fixed small capacity
-        scs.push(Sc { mode, pre_datagrams: if a.thorough { 3000 } else { 1100 }, live_datagrams: 5, signals: 2, stop: StopAt::External(700), cb_micros: 0, inflight: false, pre_session: false, live_session_stop: false, flood: false, timer_churn: false, pre_flood: false });
+        scs.push(Sc { mode, pre_datagrams: if a.thorough { 3000 } else { 1100 }, live_datagrams: 5, signals: 2, stop: StopAt::External(700), cb_micros: 0, inflight: false, pre_session: false, live_session_stop: false, flood: false, timer_churn: false, pre_flood: false, long_cb_ms: 0 });
         // the callback is busy with slow network events while plain / priority / timed signals are pending
-        scs.push(Sc { mode, pre_datagrams: 4, live_datagrams: 6, signals: 18, stop: StopAt::External(500), cb_micros: 20_000, inflight: false, pre_session: false, live_session_stop: false, flood: false, timer_churn: false, pre_flood: false });
+        scs.push(Sc { mode, pre_datagrams: 4, live_datagrams: 6, signals: 18, stop: StopAt::External(500), cb_micros: 20_000, inflight: false, pre_session: false, live_session_stop: false, flood: false, timer_churn: false, pre_flood: false, long_cb_ms: 0 });
+        // one callback that lasts longer than any internal wait (130 ms) while events of the other kind are ready
+        scs.push(Sc { mode, pre_datagrams: 0, live_datagrams: 5, signals: 9, stop: StopAt::External(700), cb_micros: 0, inflight: false, pre_session: false, live_session_stop: false, flood: false, timer_churn: false, pre_flood: false, long_cb_ms: 130 });
+        scs.push(Sc { mode, pre_datagrams: 3, live_datagrams: 5, signals: 9, stop: StopAt::External(700), cb_micros: 100, inflight: false, pre_session: false, live_session_stop: false, flood: true, timer_churn: false, pre_flood: false, long_cb_ms: 130 });
         // a long start-up cache, a callback slow enough for the live traffic to arrive during the replay
-        scs.push(Sc { mode, pre_datagrams: 300, live_datagrams: 30, signals: 4, stop: StopAt::NetEvent(329), cb_micros: 150, inflight: false, pre_session: false, live_session_stop: false, flood: false, timer_churn: false, pre_flood: false });
-        scs.push(Sc { mode, pre_datagrams: 20, live_datagrams: 40, signals: 20, stop: StopAt::NetEvent(45), cb_micros: 100, inflight: false, pre_session: false, live_session_stop: false, flood: false, timer_churn: false, pre_flood: false });
-        scs.push(Sc { mode, pre_datagrams: 6, live_datagrams: 30, signals: 30, stop: StopAt::External(40), cb_micros: 500, inflight: false, pre_session: false, live_session_stop: false, flood: false, timer_churn: false, pre_flood: false });
-        scs.push(Sc { mode, pre_datagrams: 0, live_datagrams: 30, signals: 9, stop: StopAt::Signal(8), cb_micros: 2000, inflight: false, pre_session: false, live_session_stop: false, flood: false, timer_churn: false, pre_flood: false });
+        scs.push(Sc { mode, pre_datagrams: 300, live_datagrams: 30, signals: 4, stop: StopAt::NetEvent(329), cb_micros: 150, inflight: false, pre_session: false, live_session_stop: false, flood: false, timer_churn: false, pre_flood: false, long_cb_ms: 0 });
+        scs.push(Sc { mode, pre_datagrams: 20, live_datagrams: 40, signals: 20, stop: StopAt::NetEvent(45), cb_micros: 100, inflight: false, pre_session: false, live_session_stop: false, flood: false, timer_churn: false, pre_flood: false, long_cb_ms: 0 });
+        scs.push(Sc { mode, pre_datagrams: 6, live_datagrams: 30, signals: 30, stop: StopAt::External(40), cb_micros: 500, inflight: false, pre_session: false, live_session_stop: false, flood: false, timer_churn: false, pre_flood: false, long_cb_ms: 0 });
+        scs.push(Sc { mode, pre_datagrams: 0, live_datagrams: 30, signals: 9, stop: StopAt::Signal(8), cb_micros: 2000, inflight: false, pre_session: false, live_session_stop: false, flood: false, timer_churn: false, pre_flood: false, long_cb_ms: 0 });
         for _ in 0..(if a.thorough { 20 } else { 2 }) {
             scs.push(Sc { mode, pre_datagrams: r.below(12) as usize, live_datagrams: r.below(30) as usize, signals: r.below(15) as usize,
-                stop: if r.chance(1, 2) { StopAt::NetEvent(r.below(20) as usize) } else { StopAt::Signal(r.below(10) as usize) }, cb_micros: *r.pick(&[0u64, 100, 1000]), inflight: r.chance(1, 2), pre_session: r.chance(1, 3), live_session_stop: false, flood: r.chance(1, 4), timer_churn: r.chance(1, 4), pre_flood: r.chance(1, 5) });
+                stop: if r.chance(1, 2) { StopAt::NetEvent(r.below(20) as usize) } else { StopAt::Signal(r.below(10) as usize) }, cb_micros: *r.pick(&[0u64, 100, 1000]), inflight: r.chance(1, 2), pre_session: r.chance(1, 3), live_session_stop: false, flood: r.chance(1, 4), timer_churn: r.chance(1, 4), pre_flood: r.chance(1, 5), long_cb_ms: 0 });
         }
     }
     // scenarios share the process-wide hook trace: one at a time
@@ -401,6 +409,39 @@ pub fn run(a: &Args) {
             Some(labels) => out.case(&labels, "ok"),
             None => out.count("scenarios_without_trace_inclusion"),
         }
+    }
+    // C05 under a sustained flood of short callbacks from both sides (no trace inclusion here: the
+    // point is contention on the callback lock at every hand-over)
+    for mode in [Mode::ForEach, Mode::ForEachAsync] {
+        mark_scenario(&out, &format!("node stress {:?}: datagram bursts from 2 sockets against plain / priority / timed signals from 3 threads, callbacks of ~15 us, 1 s", mode));
+        let (handler, listener) = node::split::<u64>();
+        let (_l, addr) = handler.network().listen(Transport::Udp, "127.0.0.1:0").unwrap();
+        let inside = Arc::new(AtomicUsize::new(0));
+        let overlaps = Arc::new(AtomicU64::new(0));
+        let calls = Arc::new(AtomicU64::new(0));
+        let stop = Arc::new(AtomicBool::new(false));
+        let mut bg = vec![];
+        for k in 0..2u64 { let stop = stop.clone(); bg.push(std::thread::spawn(move || { let s = UdpSocket::bind("127.0.0.1:0").unwrap(); let mut i = 0u64; while !stop.load(Ordering::SeqCst) { for _ in 0..40 { let _ = s.send_to(&(k << 32 | i).to_le_bytes(), addr); i += 1; } std::thread::sleep(Duration::from_micros(300)); } })); }
+        for k in 0..3u64 { let (stop, h) = (stop.clone(), handler.clone()); bg.push(std::thread::spawn(move || { let mut i = 0u64; while !stop.load(Ordering::SeqCst) { for _ in 0..20 { match k { 0 => h.signals().send(i), 1 => h.signals().send_with_priority(i), _ => { h.signals().send_with_timer(i, Duration::ZERO); } } i += 1; } std::thread::sleep(Duration::from_micros(200)); } })); }
+        let cb = { let (inside, overlaps, calls) = (inside.clone(), overlaps.clone(), calls.clone()); move |_ev: NodeEvent<u64>| {
+            if inside.fetch_add(1, Ordering::SeqCst) != 0 { overlaps.fetch_add(1, Ordering::SeqCst); }
+            calls.fetch_add(1, Ordering::SeqCst);
+            let t = Instant::now(); while t.elapsed() < Duration::from_micros(15) { std::hint::spin_loop(); }
+            inside.fetch_sub(1, Ordering::SeqCst);
+        } };
+        let done = Arc::new(AtomicBool::new(false));
+        let lt = { let done = done.clone(); std::thread::Builder::new().name("listener-caller".into()).spawn(move || { match mode { Mode::ForEach => listener.for_each(cb), _ => { let mut task = listener.for_each_async(cb); task.wait(); } } done.store(true, Ordering::SeqCst); }).unwrap() };
+        std::thread::sleep(Duration::from_millis(if a.thorough { 3000 } else { 1000 }));
+        handler.stop();
+        stop.store(true, Ordering::SeqCst);
+        for b in bg { let _ = b.join(); }
+        let end = Instant::now() + Duration::from_secs(3);
+        while !done.load(Ordering::SeqCst) && Instant::now() < end { std::thread::sleep(Duration::from_millis(5)); }
+        if done.load(Ordering::SeqCst) { let _ = lt.join(); } else { out.violation(&format!("[C09,C18] stress {:?}: the listener did not return within 3 s after stop()", mode)); }
+        let _ = verif::take();
+        if overlaps.load(Ordering::SeqCst) > 0 { out.violation(&format!("[C05] under a flood of short callbacks ({:?}: datagram bursts from 2 sockets, plain / priority / timed signals from 3 threads, {} callbacks of ~15 us in total) the callback was entered {} times while another invocation was still running", mode, calls.load(Ordering::SeqCst), overlaps.load(Ordering::SeqCst))); }
+        out.add("stress_callbacks", calls.load(Ordering::SeqCst));
+        out.count("node_stress_short_callbacks");
     }
     // C18: a node dropped without ever starting its listener, under traffic, ends its cache thread
     {
